@@ -392,19 +392,41 @@ fn gen_ip(a: &mut Adv) -> (Vec<u8>, bool) {
         5 => {
             // IGMP / MLD queries
             if is6 {
+                // queried address: none (general query), a group, the victim's solicited-node group, or - not a
+                // multicast address at all - the victim's own unicast address
                 let mut body = vec![0u8; 16];
-                if a.tape.draw(2) == 0 {
-                    body[0] = 0xff;
-                    body[1] = 2;
-                    body[15] = 0x42;
+                match a.tape.draw(5) {
+                    0 => {}
+                    1 => {
+                        body[0] = 0xff;
+                        body[1] = 2;
+                        body[15] = 0x42;
+                    }
+                    2 => body.copy_from_slice(&v.solicited_node().v6()),
+                    3 => body.copy_from_slice(&v.v6()),
+                    _ => {
+                        body[0] = 0xff;
+                        body[1] = a.tape.draw(16) as u8;
+                        body[15] = a.tape.draw(256) as u8;
+                    }
                 }
+                let queried = body[..16].to_vec();
                 body.extend_from_slice(&[0, 0, 0, a.tape.draw(3) as u8]);
-                let dst = IpAddr::V6([0xff, 2, 0, 0, 0, 0, 0, 0, 0, 0, 0, 0, 0, 0, 0, 1]);
+                // destination: all-nodes, the queried address itself, or the victim's unicast address
+                let dst = match a.tape.draw(4) {
+                    0 | 1 => IpAddr::V6([0xff, 2, 0, 0, 0, 0, 0, 0, 0, 0, 0, 0, 0, 0, 0, 1]),
+                    2 if queried != [0u8; 16] => {
+                        let mut q = [0u8; 16];
+                        q.copy_from_slice(&queried);
+                        IpAddr::V6(q)
+                    }
+                    _ => v,
+                };
                 let m = enc_icmp(true, &p, &dst, 130, 0, [(a.tape.draw(65536) >> 8) as u8, a.tape.draw(256) as u8, 0, 0], &body);
                 // hop-by-hop router alert in front
                 let mut pl = vec![P_ICMP6, 0, 5, 2, 0, 0, 1, 0];
                 pl.extend_from_slice(&m);
-                (enc_ip(&p, &dst, P_HBH, 1, &pl), true)
+                (enc_ip(&p, &dst, P_HBH, 1, &pl), dst.is_multicast())
             } else {
                 let dst = IpAddr::V4([224, 0, 0, 1]);
                 let mut m = vec![0x11, a.tape.draw(256) as u8, 0, 0, 0, 0, 0, 0];
